@@ -29,7 +29,7 @@ LEVEL_TEXT = {
             "Trusted: the MIR executor and its models (VecDeque as a bounded sequence, strings by identity, Vec<u8> as length+tag, clock as non-decreasing integers), z3; Rust's &mut/RwLock exclusivity for the multi-thread clause; handler level (files on disk) is outside."),
     "C17": ("Bounded model checking of one AuthProvider operation from an arbitrary valid pre-state (inductive step) over the crate's own Vec<User> database: a token authenticates exactly the user it was issued to iff now < expiry; refresh only extends a live token and rejects expired/unknown ones without changing anything; invalidate_session / invalidate_user_session / remove_user end authentication; create_session gives at most one live session with expiry = now + lifetime (lifetime 0 never authenticates). 1-2 users, symbolic expiries and clock. Passwords (Argon2), token randomness and the cookie route are outside.",
             "Trusted: Kani/CBMC; stubs for the clock (constant within an operation), OsRng and format!; token freshness is an assumption; allocator-model diagnostics are not verdicts."),
-    "C18": ("Bounded model checking of the real Base64 encoder/decoder against an RFC 4648 reference: every input of 0..3 bytes (thorough: ..5) and later groups with symbolic tails encode exactly; every ASCII string of 0..5 symbols (thorough: ..9) decodes iff it is RFC 4648 text, to the right bytes, never panicking; decode(encode(b)) = b. SHA-1 and dates are decided by the MIR->SMT engine when built; percent-encoding is outside the claim (format!-based).",
+    "C18": ("Bounded model checking of the real Base64 encoder/decoder against an RFC 4648 reference: every input of 0..3 bytes (thorough: ..5) and later groups with symbolic tails encode exactly; every ASCII string of 0..5 symbols (thorough: ..9) decodes iff it is RFC 4648 text, to the right bytes, never panicking; decode(encode(b)) = b. Dates: the MIR of DateTime::from is cut at three program points and z3 shows the Gregorian specification for every timestamp 1970..9999. SHA-1: the MIR of hash() is cut at its five loop heads; padding/IV for every length <= 130 bytes (thorough: 1100), one schedule step and one round from arbitrary states, hash update and output are each shown equal to RFC 3174 (bit-vectors). Percent-encoding and DateTime::to_string are outside the claim (format!-based).",
             "Trusted: Kani/CBMC, kani/src/refs/b64.rs; decode inputs are ASCII; non-canonical padding bits may be accepted or rejected."),
 }
 
